@@ -277,11 +277,13 @@ pub(crate) mod dev {
         pub fill: u8,
         pub watch_addr: u64,
         pub watch_val: u8,
+        pub max_end: u64,
+        pub total_writes: u32,
     }
     impl LogDev {
         pub(crate) fn new(end: u64) -> Self {
             Self { pos: 0, end, nw: 0, w_off: [0; LOGN], w_len: [0; LOGN], w_first: [0; LOGN], overflow: false, nreads: 0, r_off: 0, r_len: 0,
-                   flushes: 0, writes_at_last_flush: 0, fill: 0, watch_addr: u64::MAX, watch_val: 0 }
+                   flushes: 0, writes_at_last_flush: 0, fill: 0, watch_addr: u64::MAX, watch_val: 0, max_end: 0, total_writes: 0 }
         }
     }
     impl IoBase for LogDev { type Error = (); }
@@ -303,6 +305,8 @@ pub(crate) mod dev {
         fn write(&mut self, buf: &[u8]) -> Result<usize, ()> {
             let n = buf.len() as u64;
             let a = self.pos;
+            self.total_writes += 1;
+            if a.wrapping_add(n) > self.max_end { self.max_end = a.wrapping_add(n); }
             if self.nw < LOGN {
                 self.w_off[self.nw] = a;
                 self.w_len[self.nw] = n;
@@ -322,6 +326,126 @@ pub(crate) mod dev {
     impl Seek for LogDev {
         fn seek(&mut self, pos: SeekFrom) -> Result<u64, ()> {
             self.pos = seek_total(self.pos, self.end, pos);
+            Ok(self.pos)
+        }
+    }
+
+    pub(crate) const FATW: usize = 32;   // bytes of each FAT copy that are modelled
+    pub(crate) const DIRW: usize = 128;  // bytes of directory region that are modelled (4 slots)
+
+    /// Windowed device. The regions the library INTERPRETS are real arrays: up to two FAT copies (first FATW bytes
+    /// of each) and one directory window (DIRW bytes). Everything else (file payload, boot sector, FS-info sector)
+    /// is not stored: writes there are logged (offset, length, first byte) and one arbitrary watched address is
+    /// tracked exactly; reads there return the watched byte at its place and unconstrained bytes elsewhere.
+    /// The device is total (always transfers buf.len()); an access beyond `limit`, straddling a window edge, or
+    /// inside a FAT copy but outside the modelled window sets `oob`.
+    pub(crate) struct WinDev {
+        pub pos: u64,
+        pub limit: u64,
+        pub oob: bool,
+        pub fat_base: u64,
+        pub fat_stride: u64,
+        pub fat_copies: u8,
+        pub fat0: [u8; FATW],
+        pub fat1: [u8; FATW],
+        pub fat_writes: u32,
+        pub dir_base: u64,
+        pub dir: [u8; DIRW],
+        pub dir_writes: u32,
+        pub nw: usize,
+        pub w_off: [u64; LOGN],
+        pub w_len: [u64; LOGN],
+        pub w_first: [u8; LOGN],
+        pub overflow: bool,
+        pub flushes: u32,
+        pub writes_at_last_flush: u32,
+        pub total_writes: u32,
+        pub watch_addr: u64,
+        pub watch_val: u8,
+    }
+    impl WinDev {
+        pub(crate) fn new(limit: u64, fat_base: u64, fat_stride: u64, fat_copies: u8, dir_base: u64) -> Self {
+            Self { pos: 0, limit, oob: false, fat_base, fat_stride, fat_copies, fat0: [0; FATW], fat1: [0; FATW], fat_writes: 0,
+                   dir_base, dir: [0; DIRW], dir_writes: 0, nw: 0, w_off: [0; LOGN], w_len: [0; LOGN], w_first: [0; LOGN],
+                   overflow: false, flushes: 0, writes_at_last_flush: 0, total_writes: 0, watch_addr: u64::MAX, watch_val: 0 }
+        }
+        /// Some(copy index, offset) if [a, a+n) lies inside the modelled window of a FAT copy.
+        fn fat_hit(&mut self, a: u64, n: u64) -> Option<(usize, usize)> {
+            let fat_end = self.fat_base + self.fat_stride * self.fat_copies as u64;
+            if a + n <= self.fat_base || a >= fat_end { return None; }
+            // inside the FAT area
+            let rel = a - self.fat_base;
+            let copy = if self.fat_copies == 2 && rel >= self.fat_stride { 1 } else { 0 };
+            let o = rel - copy as u64 * self.fat_stride;
+            if a < self.fat_base || o + n > FATW as u64 || n > 4 { self.oob = true; return None; }
+            Some((copy, o as usize))
+        }
+        fn dir_hit(&mut self, a: u64, n: u64) -> Option<usize> {
+            if a + n <= self.dir_base || a >= self.dir_base + DIRW as u64 { return None; }
+            if a < self.dir_base || a + n > self.dir_base + DIRW as u64 || n > 32 { self.oob = true; return None; }
+            Some((a - self.dir_base) as usize)
+        }
+    }
+    impl IoBase for WinDev { type Error = (); }
+    impl Read for WinDev {
+        fn read(&mut self, buf: &mut [u8]) -> Result<usize, ()> {
+            let n = buf.len() as u64;
+            let a = self.pos;
+            if a > self.limit || n > self.limit - a { self.oob = true; }
+            if let Some((c, o)) = self.fat_hit(a, n) {
+                let f = if c == 0 { &self.fat0 } else { &self.fat1 };
+                if n >= 1 { buf[0] = f[o]; }
+                if n >= 2 { buf[1] = f[o + 1]; }
+                if n >= 3 { buf[2] = f[o + 2]; }
+                if n >= 4 { buf[3] = f[o + 3]; }
+            } else if let Some(o) = self.dir_hit(a, n) {
+                let mut i = 0;
+                while i < buf.len() { buf[i] = self.dir[o + i]; i += 1; }
+            } else if n > 0 && self.watch_addr >= a && self.watch_addr - a < n {
+                buf[(self.watch_addr - a) as usize] = self.watch_val;
+            }
+            self.pos = a.wrapping_add(n);
+            Ok(buf.len())
+        }
+    }
+    impl Write for WinDev {
+        fn write(&mut self, buf: &[u8]) -> Result<usize, ()> {
+            let n = buf.len() as u64;
+            let a = self.pos;
+            self.total_writes += 1;
+            if a > self.limit || n > self.limit - a { self.oob = true; }
+            if let Some((c, o)) = self.fat_hit(a, n) {
+                self.fat_writes += 1;
+                let f = if c == 0 { &mut self.fat0 } else { &mut self.fat1 };
+                if n >= 1 { f[o] = buf[0]; }
+                if n >= 2 { f[o + 1] = buf[1]; }
+                if n >= 3 { f[o + 2] = buf[2]; }
+                if n >= 4 { f[o + 3] = buf[3]; }
+            } else if let Some(o) = self.dir_hit(a, n) {
+                self.dir_writes += 1;
+                let mut i = 0;
+                while i < buf.len() { self.dir[o + i] = buf[i]; i += 1; }
+            } else {
+                if self.nw < LOGN {
+                    self.w_off[self.nw] = a;
+                    self.w_len[self.nw] = n;
+                    self.w_first[self.nw] = if buf.is_empty() { 0 } else { buf[0] };
+                    self.nw += 1;
+                } else {
+                    self.overflow = true;
+                }
+                if n > 0 && self.watch_addr >= a && self.watch_addr - a < n {
+                    self.watch_val = buf[(self.watch_addr - a) as usize];
+                }
+            }
+            self.pos = a.wrapping_add(n);
+            Ok(buf.len())
+        }
+        fn flush(&mut self) -> Result<(), ()> { self.flushes += 1; self.writes_at_last_flush = self.total_writes; Ok(()) }
+    }
+    impl Seek for WinDev {
+        fn seek(&mut self, pos: SeekFrom) -> Result<u64, ()> {
+            self.pos = seek_total(self.pos, self.limit, pos);
             Ok(self.pos)
         }
     }
